@@ -2,11 +2,14 @@
    bool/option/list/prod/unit/sumbool map to OCaml's; nat, positive, Z, Q stay the
    extracted inductive types (no Extract Constant / Extract Inductive of our own). *)
 From Coq Require Import Extraction ExtrOcamlBasic QArith List.
-From VOPy Require Import QVec Cone Pareto ParetoQ Rect Ellipsoid FM RectCover Pessimistic.
+From VOPy Require Import QVec Cone Pareto ParetoQ Rect Ellipsoid FM RectCover Pessimistic Spec Tables Optimize Empirical.
 Extraction Language OCaml.
 Extraction "model.ml"
   QVec.dot QVec.inside QVec.dominates Cone.inside_batch Cone.eye
   ParetoQ.pareto_fast_q ParetoQ.pareto_naive_q ParetoQ.pareto_ok ParetoQ.pareto_once ParetoQ.pareto_all
   Rect.rect_dom Rect.rect_dom_margin Rect.mkbox Rect.rect_update Rect.intersect Rect.check_intersection Rect.center Rect.slack_shape_ok
   Ellipsoid.ell_dom Ellipsoid.cov_witness_ok Ellipsoid.cov_separator_ok
-  RectCover.rect_cov Pessimistic.check_dominates Pessimistic.in_ext_polytope Pessimistic.line_seg_pt_intersect_at_dim.
+  RectCover.rect_cov RectCover.rect_cov_margin Pessimistic.check_dominates Pessimistic.in_ext_polytope Pessimistic.line_seg_pt_intersect_at_dim
+  Tables.pv_round_tab Tables.vg_round_tab Tables.vg_pess_tab Tables.vg_discard_tab Tables.au_round_tab Tables.au_dom Tables.au_cov Tables.au_hold
+  Optimize.opt_discrete Optimize.index_vals Optimize.decoupled_ok Optimize.global_topq_ok
+  Empirical.emp_init Empirical.step Empirical.run Empirical.predict1.
